@@ -60,7 +60,7 @@ pub fn spec() -> Spec<Case> {
         rule: "one generated history (<=20 ops from the C02 alphabet: edits, commits, forks/switches, rebase incl. interactive and conflicts, cherry-pick, amend, merge --squash, reset --soft/--mixed + recommit, stash round trips) executed twice with identical pinned dates: through the git-ai wrapper, and with plain git plus git-ai's managed repository hooks (`git-hooks ensure`). Commit ids coincide; for every commit the attestation sets {(path, session, line)} must be equal (for rewritten commits: on the lines the commit adds), and `git-ai blame --json` of every file at every branch tip must be equal. non-trivial = twins produced the same commits and >=1 preserving op ran with AI attribution present in a history of >=3 commits; distinct by case hash".into(),
         cases_quick: 196,
         cases_thorough: 2000,
-        shrink_iters: 50,
+        shrink_iters: 20,
         workers: 14,
         strategy: strategy().sboxed(),
         run,
